@@ -4,6 +4,8 @@ package c04
 import (
 	"context"
 	"fmt"
+	"os"
+	"path/filepath"
 	"runtime"
 	"strings"
 	"testing"
@@ -95,6 +97,7 @@ type scenario struct {
 	Disturb  int    // which scratch record is printed right before the record under test (vlib.Disturb; 0 none)
 	Layout   string // the logger's own time layout (SetTimeFormat); "": none. It governs the record's time field only
 	EP       string // name of the public entry point that issues the record when it is not written through (vlib.EntryPoints; "": LogAttrs)
+	PathRepl string // with caller info: the source tree is registered as a known path with this replacement (it ends up in the caller field)
 	How      int    // how the logger gets its format: 0 Set...Mode, 1 option of the package-level New, 2 option of New on a parent in another format, 3 With...Mode method
 	Thru     bool   // WriteThru with an explicit timestamp, else LogAttrs
 	Msg      string
@@ -167,6 +170,11 @@ func run(t vlib.TB, test string, sc scenario, attrsForThru slog.Attrs) {
 	if sc.Layout != "" {
 		exp.TimeLayout = sc.Layout
 	}
+	if sc.Caller && sc.PathRepl != "" {
+		cwd, _ := os.Getwd()
+		slog.RemoveKnownPathMapping(cwd) // Canon puts the tables back
+		slog.AddKnownPathMapping(filepath.Dir(cwd), sc.PathRepl)
+	}
 	vlib.Disturb(sc.Disturb)
 	func() {
 		defer func() {
@@ -238,6 +246,7 @@ func genScenario(t *rapid.T) (scenario, slog.Attrs) {
 	sevs := append(append([]slog.Level{}, vlib.Builtins...), custReg, custRaw)
 	sc.Sev = rapid.SampledFrom(sevs).Filter(func(l slog.Level) bool { return l != slog.OffLevel }).Draw(t, "severity")
 	sc.Thru = rapid.Bool().Draw(t, "writeThru")
+	sc.PathRepl = rapid.SampledFrom([]string{"", "", "", "C:\\src\\", "my \"quoted\" dir", "tab\there", "two\nlines", "back\\", "\u00fcml\u00e4ut"}).Draw(t, "knownPathReplacement")
 	{
 		// every public entry point that can carry this severity and attributes (the printf-style ones format the message)
 		var names []string
